@@ -460,6 +460,12 @@ class List(list, base.Symbolic, pg_typing.CustomTyping):
     """On change event of List."""
     # Do nothing for now to handle changes of List.
 
+    self._finalize_updates()
+    if self._onchange_callback is not None:
+      self._onchange_callback(field_updates)
+
+  def _finalize_updates(self) -> None:
+    """Removes deleted items and re-indexes the children."""
     # NOTE(daiyip): Remove items that are MISSING_VALUES.
     keys_to_remove = []
     for i, item in self.sym_items():
@@ -471,9 +477,6 @@ class List(list, base.Symbolic, pg_typing.CustomTyping):
 
     # Update paths for children.
     self._sync_children_paths()
-
-    if self._onchange_callback is not None:
-      self._onchange_callback(field_updates)
 
   def _sync_children_paths(self) -> None:
     """Makes the path of each child reflect its current position."""
@@ -567,6 +570,7 @@ class List(list, base.Symbolic, pg_typing.CustomTyping):
         update = self._set_item_without_permission_check(start + i * step, r)
         if update is not None:
           updates.append(update)
+      self._finalize_updates()
       if flags.is_change_notification_enabled() and updates:
         self._notify_field_updates(updates)
     elif isinstance(index, numbers.Integral):
@@ -575,6 +579,7 @@ class List(list, base.Symbolic, pg_typing.CustomTyping):
             f'list assignment index out of range. '
             f'Length={len(self)}, index={index}')
       update = self._set_item_without_permission_check(index, value)
+      self._finalize_updates()
       if flags.is_change_notification_enabled() and update:
         self._notify_field_updates([update])
     else:
@@ -607,6 +612,7 @@ class List(list, base.Symbolic, pg_typing.CustomTyping):
     if isinstance(old_value, base.TopologyAware):
       old_value.sym_setparent(None)
       old_value.sym_setpath(utils.KeyPath())
+    self._sync_children_paths()
 
     if flags.is_change_notification_enabled():
       self._notify_field_updates([
@@ -660,6 +666,7 @@ class List(list, base.Symbolic, pg_typing.CustomTyping):
 
     update = self._set_item_without_permission_check(
         index, mark_as_insertion(value))
+    self._sync_children_paths()
     if flags.is_change_notification_enabled() and update:
       self._notify_field_updates([update])
 
